@@ -41,6 +41,10 @@ def gen_kepler(seed, shard, n):
             if rng.random() < 0.2:
                 Ma.set_tolerance(rng.choice([1e-3, 0.5, 0.0]))      # the Angle's comparison tolerance is not part of its value
             E, v = kepler_equation(e, Ma)
+            if rng.random() < 0.5:
+                # the caller goes on using its own Angle (re-targets it for the next step) before it looks at the results:
+                # the anomalies returned for M must not follow the object
+                Ma.set(M + 137.03125)
             E, v = float(E), float(v)
             ev.update(oc="ok", E=fx(E), v=fx(v), Ef=E, vf=v)
             ev["sE"], ev["cE"] = _sc(E)
